@@ -71,6 +71,9 @@ type c20Flow struct {
 	// ExpectOther: the offer is validated against an ordinal that differs from the offered one
 	// in its output index (1), its txid (2) or both (3): such an offer must be refused
 	ExpectOther int `json:"validate_against_other_outpoint,omitempty"`
+	// AcceptTwice: the same offer object is accepted a second time (other receive / change scripts)
+	// after the first completed transaction was handed back; the first one belongs to its owner
+	AcceptTwice bool `json:"offer_accepted_twice,omitempty"`
 }
 
 type c20Inscr struct {
@@ -233,6 +236,7 @@ func c20JudgeFlow(c *mon.Ctx, f *c20Flow) {
 	var err error
 	var sellerOut *bt.Output
 	wantSellerIdx := -1
+	var second func() // the same offer accepted once more, by someone else
 	ok := c.Try("ord."+f.Flow, func() {
 		switch f.Flow {
 		case "listing", "listing-2d":
@@ -252,12 +256,22 @@ func c20JudgeFlow(c *mon.Ctx, f *c20Flow) {
 			wire.Inputs[0].PreviousTxSatoshis = 1
 			args := &ord.AcceptListingArgs{PSTx: wire, UTXOs: utxos, BuyerReceiveOrdinalScript: buyerRecv, DummyOutputScript: dummyScript, ChangeScript: changeScript, FQ: fq}
 			vla := &ord.ValidateListingArgs{ListedOrdinalUTXO: expected}
-			if f.Flow == "listing" {
-				wantSellerIdx = 1
-				final, err = ord.AcceptOrdinalSaleListing(ctx, vla, args)
-			} else {
+			accept := func(a *ord.AcceptListingArgs) (*bt.Tx, error) {
+				if f.Flow == "listing" {
+					return ord.AcceptOrdinalSaleListing(ctx, vla, a)
+				}
+				return ord.AcceptOrdinalSaleListing2Dummies(ctx, vla, a)
+			}
+			wantSellerIdx = 1
+			if f.Flow != "listing" {
 				wantSellerIdx = 2
-				final, err = ord.AcceptOrdinalSaleListing2Dummies(ctx, vla, args)
+			}
+			final, err = accept(args)
+			if f.AcceptTwice && err == nil && final != nil {
+				second = func() {
+					other := bscript.NewFromBytes(gen.P2PKH(bytes.Repeat([]byte{0x5c}, 20)))
+					_, _ = accept(&ord.AcceptListingArgs{PSTx: wire, UTXOs: utxos, BuyerReceiveOrdinalScript: other, DummyOutputScript: other, ChangeScript: bscript.NewFromBytes(gen.P2PKH(bytes.Repeat([]byte{0x5d}, 20))), FQ: fq})
+				}
 			}
 		case "bid":
 			var pstx *bt.Tx
@@ -268,6 +282,12 @@ func c20JudgeFlow(c *mon.Ctx, f *c20Flow) {
 			}
 			final, err = ord.AcceptBidToBuy1SatOrdinal(ctx, &ord.ValidateBidArgs{OrdinalUTXO: expected, BidAmount: uint64(int64(f.Price) + f.AcceptDelta), ExpectedFQ: fq},
 				&ord.AcceptBidArgs{PSTx: pstx, SellerReceiveScript: bscript.NewFromBytes(append([]byte{}, *sellerRecv...)), OrdinalUnlocker: sellerUnlocker})
+			if f.AcceptTwice && err == nil && final != nil {
+				second = func() {
+					_, _ = ord.AcceptBidToBuy1SatOrdinal(ctx, &ord.ValidateBidArgs{OrdinalUTXO: expected, BidAmount: uint64(int64(f.Price) + f.AcceptDelta), ExpectedFQ: fq},
+						&ord.AcceptBidArgs{PSTx: pstx, SellerReceiveScript: bscript.NewFromBytes(gen.P2PKH(bytes.Repeat([]byte{0x5c}, 20))), OrdinalUnlocker: sellerUnlocker})
+				}
+			}
 		case "bid-2d":
 			var pstx *bt.Tx
 			pstx, err = ord.MakeBidToBuy1SatOrdinal2Dummies(ctx, &ord.MakeBid2DArgs{BidAmount: f.Price, OrdinalTxID: hex.EncodeToString(f.OrdTxID), OrdinalVOut: f.OrdVout,
@@ -293,6 +313,12 @@ func c20JudgeFlow(c *mon.Ctx, f *c20Flow) {
 			}
 			final, err = ord.AcceptBidToBuy1SatOrdinal2Dummies(ctx, &ord.ValidateBid2DArgs{PreviousUTXOs: prevs, BidAmount: uint64(int64(f.Price) + f.AcceptDelta), ExpectedFQ: fq},
 				&ord.AcceptBid2DArgs{PSTx: pstx, SellerReceiveOrdinalScript: bscript.NewFromBytes(append([]byte{}, *sellerRecv...)), OrdinalUnlocker: sellerUnlocker, ExtraUTXOs: extras})
+			if f.AcceptTwice && err == nil && final != nil {
+				second = func() {
+					_, _ = ord.AcceptBidToBuy1SatOrdinal2Dummies(ctx, &ord.ValidateBid2DArgs{PreviousUTXOs: prevs, BidAmount: uint64(int64(f.Price) + f.AcceptDelta), ExpectedFQ: fq},
+						&ord.AcceptBid2DArgs{PSTx: pstx, SellerReceiveOrdinalScript: bscript.NewFromBytes(gen.P2PKH(bytes.Repeat([]byte{0x5c}, 20))), OrdinalUnlocker: sellerUnlocker, ExtraUTXOs: extras})
+				}
+			}
 		}
 	})
 	if !ok {
@@ -303,6 +329,15 @@ func c20JudgeFlow(c *mon.Ctx, f *c20Flow) {
 		return
 	}
 	c.Count("flow:" + f.Flow + ":completed")
+	if second != nil {
+		first := append([]byte{}, final.Bytes()...)
+		if c.Try("ord."+f.Flow+"(same offer again)", second) {
+			c.Count("flow:" + f.Flow + ":offer-accepted-a-second-time")
+			if !bytes.Equal(final.Bytes(), first) {
+				c.Violationf("C20:completed-tx-changed-by-a-later-acceptance:"+f.Flow, "the transaction completed from an offer changed when the same offer object was accepted again with other scripts: was %x, is now %x", first, final.Bytes())
+			}
+		}
+	}
 	if f.ExpectOther != 0 && f.Flow != "bid-2d" {
 		c.Violationf("C20:completed-although-the-offer-spends-another-outpoint:"+f.Flow, "the offer spends %x:%d, it was validated against %x:%d (mismatch kind %d) and the flow completed a transaction instead of refusing", f.OrdTxID, f.OrdVout, expected.TxID, expected.Vout, f.ExpectOther)
 		return
@@ -573,6 +608,7 @@ func init() {
 			f.FundShare = prng.Pick(r, []int{0, 0, 0, 1, 2, 3})
 			f.Wallet = prng.Pick(r, []int{0, 0, 1, 2, 3, 3})
 			f.OneScriptObject = f.ChangeLen == 25 && i%5 == 3
+			f.AcceptTwice = i%7 == 2 || i%7 == 5
 			if i%9 == 4 {
 				f.ExpectOther = 1 + int(i/9)%3
 			}
